@@ -106,7 +106,7 @@ pub struct ConnResult {
 
 struct Shared {
     t0: Instant,
-    addr: SocketAddr,
+    addrs: Vec<SocketAddr>,
     /// None: not known yet; Some(None): the shutdown future never resolved; Some(Some(t)): resolved at t
     resolved: Mutex<Option<Option<Instant>>>,
     resolved_cv: Condvar,
@@ -227,7 +227,7 @@ fn client(spec: ConnSpec, sh: Arc<Shared>) -> ConnResult {
         sleep_until(sh.t0 + Duration::from_millis(spec.connect_at_ms));
     }
     verif::event("c_connect_begin", spec.idx, 0u64);
-    let mut s = match TcpStream::connect_timeout(&sh.addr, Duration::from_secs(3)) {
+    let mut s = match TcpStream::connect_timeout(&sh.addrs[spec.idx % sh.addrs.len()], Duration::from_secs(3)) {
         Ok(s) => s,
         Err(e) => {
             let refused = e.kind() == std::io::ErrorKind::ConnectionRefused;
@@ -344,31 +344,38 @@ fn run_one(rt: &tokio::runtime::Runtime, plan: &Plan) -> RunRecord {
     verif::install_plan(plan.delays.clone());
     PANICS.lock().unwrap().clear();
     let own = format!("127.0.0.{}:0", 2 + SHARD.load(Ordering::SeqCst) % 250);
-    let listener = match std::net::TcpListener::bind(own.as_str()).or_else(|_| std::net::TcpListener::bind("127.0.0.1:0")) {
-        Ok(l) => l,
-        Err(e) => {
-            rec.setup_error = Some(format!("bind: {e}"));
-            return rec;
-        }
-    };
-    let addr = listener.local_addr().unwrap();
-    let handle = {
-        let _g = rt.enter();
-        let incoming: IncomingStream = match listener.try_into() {
-            Ok(i) => i,
+    let mut std_listeners = Vec::new();
+    for _ in 0..plan.listeners.max(1) {
+        match std::net::TcpListener::bind(own.as_str()).or_else(|_| std::net::TcpListener::bind("127.0.0.1:0")) {
+            Ok(l) => std_listeners.push(l),
             Err(e) => {
-                rec.setup_error = Some(format!("incoming: {e}"));
+                rec.setup_error = Some(format!("bind: {e}"));
                 return rec;
             }
-        };
+        }
+    }
+    let addrs: Vec<SocketAddr> = std_listeners.iter().map(|l| l.local_addr().unwrap()).collect();
+    let handle = {
+        let _g = rt.enter();
         let cfg = ServerConfiguration::new().set_n_workers(plan.workers);
-        Server::new().set_config(cfg).listen(incoming).serve(handler, ())
+        let mut server = Server::new().set_config(cfg);
+        for listener in std_listeners {
+            let incoming: IncomingStream = match listener.try_into() {
+                Ok(i) => i,
+                Err(e) => {
+                    rec.setup_error = Some(format!("incoming: {e}"));
+                    return rec;
+                }
+            };
+            server = server.listen(incoming);
+        }
+        server.serve(handler, ())
     };
     MAX_LAG_US.store(0, Ordering::SeqCst);
     verif::event("run_begin", plan.workers, 0u64);
     let sh = Arc::new(Shared {
         t0: Instant::now(),
-        addr,
+        addrs,
         resolved: Mutex::new(None),
         resolved_cv: Condvar::new(),
         stop: AtomicBool::new(false),
@@ -404,7 +411,7 @@ fn run_one(rt: &tokio::runtime::Runtime, plan: &Plan) -> RunRecord {
     loop {
         rec.events.extend(verif::take_events());
         let exits = rec.events.iter().filter(|e| e.kind == "worker_exit").count();
-        let closed = rec.events.iter().any(|e| e.kind == "listener_closed");
+        let closed = rec.events.iter().filter(|e| e.kind == "listener_closed").count() >= plan.listeners.max(1);
         if exits >= plan.workers && closed {
             rec.workers_exited = true;
             break;
